@@ -27,7 +27,7 @@ TRUSTED = ["harness/src/bin/solver-shim.rs (fault injection, transcript log) and
 
 def streams(tier, seed):
     if tier == "quick":
-        return [dict(tag="main", count=4, seed=seed, extra={"tier": "quick", "pdr-cap": 6, "jobs": 8})]
+        return [dict(tag="main", count=4, seed=seed, extra={"tier": "quick", "pdr-cap": 4, "jobs": 8})]
     out = []
     for k in range(5):
         out.append(dict(tag="main%d" % k, count=8, seed=seed * 100 + k, extra={"tier": "thorough", "pdr-cap": 16, "jobs": 10}))
